@@ -271,6 +271,16 @@ Section Model.
                        end
     end.
 
+  (* Number::f32() f64() i32() i64() usize() / to::<T>() / fromas: Cast::<T>::cast(self) (number.rs l.107-160) *)
+  Definition number_to (s u : nt) (v : nval s) : nval u := as_nn s u v.
+
+  (* Number::min_() / max_() of the integer types: <T>::MIN / <T>::MAX (number.rs l.205-216) *)
+  Definition number_min (n : nt) : Z := imin n.
+  Definition number_max (n : nt) : Z := imax n.
+
+  (* BoolType::bool_ for bool and &bool (bool_type.rs) *)
+  Definition bool_ (b : bool) : bool := b.
+
   (* ---------------------------------------------------------------- *)
   (* partial_cmp of the inner types, sort_cmp, sort_cmp_rev *)
 
